@@ -42,6 +42,8 @@ def gen(rng, tier):
     cases += [core.case_from_struct(G.with_unused_node(G.gen_frame(rng, max_cells=1) if i % 2 else shared_joint(rng), rng), Weight=False, Assemble=True) for i in range(k)]
     # a bar that ends, with the x movement released, in a joint whose other numbers already carry an earlier bar's loads
     cases += [core.case_from_struct(G.gen_slider_joint(rng, ["only_dy", "only_rz", "slide_x"][i % 3]), Weight=core.weights(i), Assemble=True) for i in range(4 if tier == "quick" else 40)]
+    # a bar cut into many unequal finite elements (its matrices may be asked for in one go)
+    cases += [core.case_from_struct(G.gen_many_positions(rng, npos, 0), Weight=False, Assemble=True) for npos in (18, 27)]
     # the same sliced structure assembled a second time after nodal loads were added to two of its slice nodes
     for i, c in enumerate(cases):
         if i % 3 == 1 and not c.get("ViaPre"):
